@@ -18,12 +18,22 @@ import (
 type directRec struct {
 	b         []byte
 	remainCap int
+	prefix    []byte // copy of the linear bytes before the indicated position, taken at the moment of the call
 }
 
-type recWriter struct{ recs []directRec }
+// recWriter records every direct write and, like a streaming writer that hands the preceding linear bytes
+// to the connection when a direct write is announced, snapshots the buffer up to the indicated position.
+type recWriter struct {
+	recs []directRec
+	buf  []byte // the buffer the codec writes into
+}
 
 func (w *recWriter) WriteDirect(b []byte, remainCap int) error {
-	w.recs = append(w.recs, directRec{b, remainCap})
+	r := directRec{b: b, remainCap: remainCap}
+	if pos := len(w.buf) - remainCap; w.buf != nil && pos >= 0 && pos <= len(w.buf) {
+		r.prefix = append([]byte{}, w.buf[:pos]...)
+	}
+	w.recs = append(w.recs, r)
 	return nil
 }
 
@@ -47,6 +57,7 @@ type c15Case struct {
 	Kind  string `json:"kind"`  // string | binary | seq | base | baseresp | exception
 	Lens  []int  `json:"lens"`  // value lengths
 	Spare int    `json:"spare"` // spare capacity of the buffer beyond its length
+	Extra int    `json:"extra"` // the buffer is this much LONGER than the value (a struct embedded in a larger frame)
 	W     bool   `json:"direct_writer"`
 	Map   int    `json:"map"` // 0 nil, 1 empty, 2 one entry (Lens[3], Lens[4])
 }
@@ -166,15 +177,18 @@ func c15One(c *mc.Ctx, k c15Case) {
 			copying = cb[:cn]
 			write = func(buf []byte) int { return m.FastWriteNocopy(buf, w) }
 		}
-		backing := bytes.Repeat([]byte{0xCC}, total+k.Spare)
-		buf := backing[: total : total+k.Spare]
+		backing := bytes.Repeat([]byte{0xCC}, total+k.Extra+k.Spare)
+		buf := backing[: total+k.Extra : total+k.Extra+k.Spare]
+		if rw != nil {
+			rw.buf = buf
+		}
 		n := write(buf)
 		if n < 0 || n > total {
-			bad("return", "the no-copy writer returned %d for a %d-byte buffer", n, total)
+			bad("return", "the no-copy writer returned %d for a %d-byte value", n, total)
 			return
 		}
-		if !bytes.Equal(backing[total:], bytes.Repeat([]byte{0xCC}, k.Spare)) {
-			bad("overrun", "the no-copy writer wrote beyond the buffer's length")
+		if !bytes.Equal(backing[total:], bytes.Repeat([]byte{0xCC}, k.Extra+k.Spare)) {
+			bad("overrun", "the no-copy writer wrote beyond the bytes of the value (the rest of the frame / spare capacity was touched)")
 			return
 		}
 		var recs []directRec
@@ -215,6 +229,13 @@ func c15One(c *mc.Ctx, k c15Case) {
 			bad("splice-position", "%s", why)
 			return
 		}
+		for i, r := range recs {
+			// a streaming consumer sends the linear bytes before the indicated position when the direct write is announced
+			if pos := len(buf) - r.remainCap; pos >= 0 && pos <= n && !bytes.Equal(r.prefix, buf[:pos]) {
+				bad("prefix-not-final-at-direct-write", "direct write #%d was announced at position %d before the linear bytes preceding it were final (they changed afterwards at +%d)", i, pos, firstDiff(r.prefix, buf[:pos]))
+				return
+			}
+		}
 		if !bytes.Equal(got, copying) {
 			bad("stream-differs", "after splicing the directly written pieces in at the indicated positions the stream differs from the copying path at +%d (len %d vs %d)", firstDiff(got, copying), len(got), len(copying))
 			return
@@ -224,10 +245,10 @@ func c15One(c *mc.Ctx, k c15Case) {
 			return
 		}
 		// the repository's own test writer must agree with the independent splice
-		if k.W && k.Spare == 0 {
+		if k.W && k.Spare == 0 && k.Extra == 0 {
 			nw := &netpoll.NetpollDirectWriter{}
 			nb := nw.Malloc(total)
-			rw.recs = nil
+			rw.recs, rw.buf = nil, nil
 			w = nw
 			n2 := write(nb)
 			_ = n2
@@ -249,6 +270,9 @@ func c15Run(c *mc.Ctx) {
 			for _, w := range []bool{false, true} {
 				for _, spare := range []int{0, 13} {
 					c15One(c, c15Case{Kind: kind, Lens: []int{int(n)}, Spare: spare, W: w})
+				}
+				if n%97 == 0 || (n >= 4090 && n <= 4100) {
+					c15One(c, c15Case{Kind: kind, Lens: []int{int(n)}, Extra: 57, Spare: 5, W: w})
 				}
 			}
 		}
@@ -278,6 +302,7 @@ func c15Run(c *mc.Ctx) {
 					for _, spare := range []int{0, 100} {
 						c15One(c, c15Case{Kind: "seq", Lens: lens, Spare: spare, W: w})
 					}
+					c15One(c, c15Case{Kind: "seq", Lens: lens, Extra: 33, W: w})
 				}
 			}
 		}
@@ -305,9 +330,11 @@ func c15Run(c *mc.Ctx) {
 						c.Distinct("base", l0, l1, l2, mp, ml)
 						for _, w := range []bool{false, true} {
 							for _, spare := range []int{0, 64} {
+								c15One(c, c15Case{Kind: "base", Lens: []int{l0, l1, l2, ml[0], ml[1]}, Map: mp, W: w, Spare: spare, Extra: spare / 2})
 								c15One(c, c15Case{Kind: "base", Lens: []int{l0, l1, l2, ml[0], ml[1]}, Map: mp, W: w, Spare: spare})
 								if l1 == 3 && l2 == 3 {
 									c15One(c, c15Case{Kind: "baseresp", Lens: []int{l0, 0, 0, ml[0], ml[1]}, Map: mp, W: w, Spare: spare})
+									c15One(c, c15Case{Kind: "baseresp", Lens: []int{l0, 0, 0, ml[0], ml[1]}, Map: mp, W: w, Extra: 41})
 									if mp == 0 {
 										c15One(c, c15Case{Kind: "exception", Lens: []int{l0}, W: w, Spare: spare})
 									}
@@ -326,9 +353,10 @@ func c15Run(c *mc.Ctx) {
 func init() {
 	Register(&Check{
 		ID: "C15", Level: "exploration",
-		Rule:        "WriteStringNocopy/WriteBinaryNocopy for EVERY length 0..3*4096+1 x {nil, recording} direct writer x buffer with exact / spare capacity; all sequences of <= 3 calls over lengths {0,1,4095,4096,4097,9000}; Base (4^5 field-length combinations + nil/empty map), BaseResp, ApplicationException; oracle = independent splice of the linear bytes and the recorded (slice, remainCap) pairs compared with the copying path; distinct = distinct length tuples",
-		Assumptions: []string{"struct maps have at most one entry so that the copying path is byte-comparable (Go map order is not owned)"},
-		Run:         c15Run,
-		Replay:      func(c *mc.Ctx, sub string, raw json.RawMessage) { replayAs(raw, func(k c15Case) { c15One(c, k) }) },
+		Rule: "WriteStringNocopy/WriteBinaryNocopy for EVERY length 0..3*4096+1 x {nil, recording} direct writer x buffer with exact / spare capacity; all sequences of <= 3 calls over lengths {0,1,4095,4096,4097,9000}; Base (4^5 field-length combinations + nil/empty map), BaseResp, ApplicationException; oracle = independent splice of the linear bytes and the recorded (slice, remainCap) pairs compared with the copying path; distinct = distinct length tuples",
+		Assumptions: []string{"struct maps have at most one entry so that the copying path is byte-comparable (Go map order is not owned)",
+			"'the positions the library indicates' is read as a streaming consumer reads it: when a direct write is announced, the linear bytes before the indicated position are already final (the buffer may be longer than the value: a struct inside a larger frame)"},
+		Run:    c15Run,
+		Replay: func(c *mc.Ctx, sub string, raw json.RawMessage) { replayAs(raw, func(k c15Case) { c15One(c, k) }) },
 	})
 }
